@@ -479,6 +479,79 @@ func c20Mixed(r *Run, cs c20Case) {
 	}
 }
 
+// c20CloseRace: "Wait returns for every caller" also when the cache is closed under them. K goroutines alternate
+// Set and Wait; Close lands after a PRNG-chosen number of Waits have returned; every goroutine must come back. A
+// goroutine that does not is reported only from a deadlock state: parked inside Store.Wait (on its wake-up, on the
+// event send, or on the mutex that serialises Wait callers) in two dumps, with the maintenance goroutine gone.
+func c20CloseRace(r *Run, idx int) {
+	rng := r.Rng(int64(20700 + idx))
+	K := []int{1, 2, 4, 8}[idx%4]
+	c, err := theine.NewBuilder[int, int](1 << 16).Build()
+	if err != nil {
+		r.Broken("build: %v", err)
+		return
+	}
+	var waits, finished atomic.Int64
+	stop := make(chan struct{})
+	for w := 0; w < K; w++ {
+		go func(w int) {
+			defer finished.Add(1)
+			for i := 0; ; i++ {
+				select {
+				case <-stop:
+					return
+				default:
+				}
+				c.Set(w<<20|i%1000, i, 1)
+				c.Wait()
+				waits.Add(1)
+			}
+		}(w)
+	}
+	closeAfter := int64(1 + rng.Intn(400))
+	for polls := 0; waits.Load() < closeAfter && polls < 200000; polls++ {
+		time.Sleep(20 * time.Microsecond)
+	}
+	c.Close()
+	close(stop)
+	verdict := ""
+	for evals := 0; evals < 100 && finished.Load() < int64(K); evals++ {
+		time.Sleep(10 * time.Millisecond)
+		if finished.Load() == int64(K) {
+			break
+		}
+		gs, all := dumpPair(150 * time.Millisecond)
+		if dumpBlind.Load() {
+			r.Broken("C20: goroutine dumps cannot be parsed (own goroutine not found); hang verdicts are void")
+			return
+		}
+		if maintenanceStatePair(gs, all) != "absent" {
+			continue
+		}
+		n, where := 0, ""
+		for _, g := range gs {
+			if g.has(").Wait(") && parkedState(g.State) && g.has("main.c20CloseRace") {
+				n++
+				where = g.topTheineFrame() + " [" + g.State + "]"
+			}
+		}
+		if n > 0 && finished.Load() < int64(K) {
+			verdict = fmt.Sprintf("%d of %d goroutines that were calling Wait when Close ran are parked inside Store.Wait (%s) in two dumps 150 ms apart; the maintenance goroutine has exited, nobody can wake them", n, K, where)
+			break
+		}
+	}
+	r.Eval(1)
+	r.Count("close_race_scenarios", 1)
+	r.Count("close_race_waits_returned_before_close", waits.Load())
+	r.Distinct(fmt.Sprintf("close-race/K=%d", K))
+	if verdict != "" {
+		r.Violate("wait-never-returns/close-while-waiting", fmt.Sprintf("close-race scenario %d (%d goroutines alternating Set and Wait, Close after %d Waits): %s", idx, K, closeAfter, verdict),
+			map[string]any{"scenario": idx, "waiters": K, "close_after_waits": closeAfter})
+	} else if finished.Load() < int64(K) {
+		r.Inconclusive(1)
+	}
+}
+
 func runC20(r *Run) {
 	r.Rule("case = one scenario on a fresh cache: phase mode (maintenance stalled inside a batch, n writes then K Wait markers queued at known positions, release) or mixed mode (W writers alternating Set/Delete while K goroutines call Wait repeatedly). Non-trivial = every scenario; distinct by (mode, queued writes, waiters, writers)")
 	r.Assume("phase mode: all n writes and all K markers are in the write queue before maintenance resumes (checked through the queue length), so the batch containing each marker is known",
@@ -505,6 +578,9 @@ func runC20(r *Run) {
 		for _, n2 := range []int{1, 5, 130} {
 			cases = append(cases, c20Case{Mode: "steal", Preload: n1, Writers: n2, Waiters: 2})
 		}
+	}
+	for i := 0; i < r.Pick(4, 40); i++ {
+		c20CloseRace(r, r.Shard*40+i)
 	}
 	reps := r.Pick(1, 10)
 	for rep := 0; rep < reps; rep++ {
